@@ -171,7 +171,7 @@ class Run(object):
         if key in self._vsigs:
             return True
         self._vsigs.add(key)
-        d = os.path.join(VERIF, "out", "replays", self.pid)
+        d = os.path.join(os.environ.get("VERIF_OUT_DIR") or os.path.join(VERIF, "out"), "replays", self.pid)
         os.makedirs(d, exist_ok=True)
         h = hashlib.sha1(key.encode()).hexdigest()[:12]
         path = os.path.join(d, "%s.json" % h)
